@@ -177,3 +177,14 @@ claim('C11', 'model_checking',
       'levels 0/1/6/9 in both namings, split behind debug links, and compared with their plain dumps.',
       'zlib inflate of non-stored streams and CRC-32 are uninterpreted (Python zlib/binascii, objcopy 2.40 trusted); location/range/aranges/pubnames tables are '
       'not in the dump', 'DESIGN.md 5/C11')
+claim('C09', 'model_checking',
+      'TLA+ abstract dynamic object writer (tag sequence, string/symbol/hash tables, PT_LOAD layouts), both encodings (with section headers / stripped) and the '
+      'tag-scan and pointer-to-offset reader machines (spec/Dynamic.tla, DynScan.tla) model-checked by TLC (TagsUpToAndInclNull, ViewsAgree, CountExact, '
+      'StrtabAgree, PtrInsideSegment, ScanBounded, ScanProgress, RunAgrees, SameData, PlacementOK); each object is emitted as two images and replayed into '
+      'DynamicSection / DynamicSegment (three views compared); corpus dynamic scans validated as traces (spec/trace/DynamicTrace.tla)',
+      'TLC enumerates tag sequences x machine/OS-ABI tag tables x tails after DT_NULL x PT_LOAD layouts (incl. zero-fill) x symbol tables x hash kinds '
+      '(SysV, GNU, GNU-empty, none) x string-table variants (match, decoy .dynstr, split .dynamic offset) and checks that the declarative view, the '
+      'scan machine and the closed form agree; every object is one conformance case for the section view, the segment view and the stripped view; '
+      '148 corpus scans are re-run inside TLC.',
+      'trusts TLC, the gABI/gnu-hash transcription and the vendored registry; the symbol count is asserted only where a hash table determines it; '
+      'relocation tables are asserted by C08; duplicate/absent DT_STRTAB/DT_SYMTAB and overlapping PT_LOADs are outside the quantifier', 'DESIGN.md 5/C09')
